@@ -1853,6 +1853,19 @@ func callVariadic(v reflect.Value, in []reflect.Value) []reflect.Value {
 	return v.Call(in)
 }
 
+// bindRecv returns the receiver v of a method value of a host type. If v refers to a
+// variable, it is copied: reflect reads the receiver of a method value when the method
+// is called, and the receiver must be the one evaluated now, whatever is assigned
+// later to the variable (method value, defer or go statement).
+func bindRecv(v reflect.Value) reflect.Value {
+	if !v.CanAddr() {
+		return v
+	}
+	c := reflect.New(v.Type()).Elem()
+	c.Set(v)
+	return c
+}
+
 func getIndexBinMethod(n *node) {
 	// dest := genValue(n)
 	i := n.findex
@@ -1861,10 +1874,22 @@ func getIndexBinMethod(n *node) {
 	value := genValue(n.child[0])
 	next := getExec(n.tnext)
 
+	if t := n.child[0].typ.TypeOf(); t.Kind() == reflect.Ptr {
+		if em, ok := t.Elem().MethodByName(n.child[1].ident); ok {
+			// The receiver of the method is the pointed value, as it is now.
+			m = em.Index
+			n.exec = func(f *frame) bltn {
+				getFrame(f, l).data[i] = bindRecv(value(f).Elem()).Method(m)
+				return next
+			}
+			return
+		}
+	}
+
 	n.exec = func(f *frame) bltn {
 		// Can not use .Set() because dest type contains the receiver and source not
 		// dest(f).Set(value(f).Method(m))
-		getFrame(f, l).data[i] = value(f).Method(m)
+		getFrame(f, l).data[i] = bindRecv(value(f)).Method(m)
 		return next
 	}
 }
@@ -1878,7 +1903,7 @@ func getIndexBinElemMethod(n *node) {
 
 	n.exec = func(f *frame) bltn {
 		// Can not use .Set() because dest type contains the receiver and source not
-		getFrame(f, l).data[i] = value(f).Elem().Method(m)
+		getFrame(f, l).data[i] = bindRecv(value(f).Elem()).Method(m)
 		return next
 	}
 }
@@ -2368,7 +2393,7 @@ func getIndexSeqPtrMethod(n *node) {
 	if n.child[0].typ.TypeOf().Kind() == reflect.Ptr {
 		if len(fi) == 0 {
 			n.exec = func(f *frame) bltn {
-				getFrame(f, l).data[i] = value(f).Method(mi)
+				getFrame(f, l).data[i] = bindRecv(value(f)).Method(mi)
 				return next
 			}
 		} else {
@@ -2404,24 +2429,24 @@ func getIndexSeqMethod(n *node) {
 	if n.child[0].typ.TypeOf().Kind() == reflect.Ptr {
 		if len(fi) == 0 {
 			n.exec = func(f *frame) bltn {
-				getFrame(f, l).data[i] = value(f).Elem().Method(mi)
+				getFrame(f, l).data[i] = bindRecv(value(f).Elem()).Method(mi)
 				return next
 			}
 		} else {
 			n.exec = func(f *frame) bltn {
-				getFrame(f, l).data[i] = value(f).Elem().FieldByIndex(fi).Method(mi)
+				getFrame(f, l).data[i] = bindRecv(value(f).Elem().FieldByIndex(fi)).Method(mi)
 				return next
 			}
 		}
 	} else {
 		if len(fi) == 0 {
 			n.exec = func(f *frame) bltn {
-				getFrame(f, l).data[i] = value(f).Method(mi)
+				getFrame(f, l).data[i] = bindRecv(value(f)).Method(mi)
 				return next
 			}
 		} else {
 			n.exec = func(f *frame) bltn {
-				getFrame(f, l).data[i] = value(f).FieldByIndex(fi).Method(mi)
+				getFrame(f, l).data[i] = bindRecv(value(f).FieldByIndex(fi)).Method(mi)
 				return next
 			}
 		}
